@@ -597,6 +597,20 @@ Theorem C06_fedit_shape : forall l e,
 Proof. exact fedit_shape. Qed.
 Print Assumptions C06_fedit_shape.
 
+(* the in-place str methods of the history language (seq.str.upper / lower / swapcase / replace / strip / lstrip / rstrip): the case
+   methods keep the length (features stay where they were); replacing a character by a character is a map; replacing an absent
+   character changes nothing; lstrip / rstrip remove exactly the longest prefix / suffix made of chars *)
+Theorem C06_str_methods_spec : forall chars c new s,
+  (length (upper s) = length s /\ length (lower s) = length s /\ length (map swap1 s) = length s) /\
+  (forall d, replace1 c [d] s = map (fun x => if byte_eqb x c then d else x) s) /\
+  (has c s = false -> replace1 c new s = s) /\
+  (exists pre, s = pre ++ lstrip_chars chars s /\ forallb (fun x => has x chars) pre = true /\
+               match lstrip_chars chars s with x :: _ => has x chars = false | [] => True end) /\
+  (exists suf, s = rstrip_chars chars s ++ suf /\ forallb (fun x => has x chars) suf = true /\
+               match rev (rstrip_chars chars s) with x :: _ => has x chars = false | [] => True end).
+Proof. exact str_methods_spec. Qed.
+Print Assumptions C06_str_methods_spec.
+
 (* non-vacuity: two cds, the later one further left: sort() changes the answer of the lookup (the history of seeded change C06-21) *)
 Example C06_witness_sort_changes_lookup :
   let late := mkFt (Some (bs "cds"%bs)) [mkLoc 11 17 S_REVERSE 0] in
